@@ -165,7 +165,7 @@ def step (d : Drv) (cmd : List Sexp) : Drv × String :=
       match res with
       | .error e => (d, errLine e)
       | .ok r => d.report n (if r.isSame then "same" else "new") (.ok (r.get t))
-    | _, _, _ => (d, "bad-apply")
+    | _, _, _ => (d, "bad-ref")
   -- (join rN rL rR PRED bt tr)
   | [atom "join", atom n, atom ln, atom rn, px, atom bt, atom tr] =>
     match d.rel? ln, d.rel? rn, decPred d.env px, decBool bt, decBool tr with
@@ -173,33 +173,34 @@ def step (d : Drv) (cmd : List Sexp) : Drv × String :=
       match l.joinWith d.store r p bt tr with
       | .error e => (d, errLine e)
       | .ok res => d.report n (if res.isSame then "same" else "new") (.ok (res.get l))
-    | _, _, _, _, _ => (d, "bad-join")
+    | _, _, _, _, _ => (d, "bad-ref")
   | [atom "chain", atom n, atom ln, atom rn] =>
     match d.rel? ln, d.rel? rn with
     | some l, some r =>
       match l.chainWith d.store r with
       | .error e => (d, errLine e)
       | .ok res => d.report n "new" (.ok (res.get l r))
-    | _, _ => (d, "bad-chain")
+    | _, _ => (d, "bad-ref")
   | [atom "mat", atom n, atom tn, atom name] =>
     match d.rel? tn with
     | some t =>
       match t.materialized d.store name with
       | .error e => (d, errLine e)
       | .ok res => d.report n (if res.isSame then "same" else "new") (.ok (res.get t))
-    | none => (d, "bad-mat")
+    | none => (d, "bad-ref")
   | [atom "transfer", atom n, atom tn, atom en] =>
     match d.rel? tn, d.eng? en with
     | some t, some e =>
       match t.transferredTo d.store e with
       | .error er => (d, errLine er)
       | .ok res => d.report n (if res.isSame then "same" else "new") (.ok (res.get t))
-    | _, _ => (d, "bad-transfer")
+    | _, _ => (d, "bad-ref")
   -- (exec rN): execute in the relation's own engine, iterate twice
   | [atom "exec", atom n] =>
     match d.rel? n with
-    | none => (d, "bad-exec")
+    | none => (d, "bad-ref")
     | some r =>
+      if r.engine.kind == .sql then (d, "bad-exec") else
       let s0 := { d.st with log := [] }
       match (exec d.sigma r.engine r).run s0 with
       | .error e => (d, errLine e)
@@ -218,12 +219,12 @@ def step (d : Drv) (cmd : List Sexp) : Drv × String :=
   -- (sem rN): reference semantics (model only; the harness uses it as the oracle)
   | [atom "sem", atom n] =>
     match d.rel? n with
-    | none => (d, "bad-sem")
-    | some r => (d, s!"ok rows={showRows d.env.tags (sem d.sigma r)}")
+    | none => (d, "bad-ref")
+    | some r => (d, s!"ok rows={showRows d.env.tags (sem d.sigma r)} kd={showBool (keyDetermined d.sigma r)}")
   -- (show rN)
   | [atom "show", atom n] =>
     match d.rel? n with
-    | none => (d, "bad-show")
+    | none => (d, "bad-ref")
     | some r => (d, "ok " ++ d.showRel r)
   -- (commute NEW CUR rT): raw `new.commute(UnaryOperationRelation(cur, target))`
   | [atom "commute", nx, cx, atom tn] =>
@@ -233,10 +234,57 @@ def step (d : Drv) (cmd : List Sexp) : Drv × String :=
       | .ok nw, .ok cur =>
         let ccols := cur.appliedColumns t.columns
         let c := nw.commute cur t.columns ccols
-        (d, s!"ok first={match c.first with | none => "-" | some f => f.show} second={c.second.show} done={showBool c.done}")
+        (d, s!"ok first={match c.first with | none => "-" | some f => f.show} second={c.second.show} done={showBool c.done} cur={cur.show}")
       | .error e, _ => (d, errLine e)
       | _, .error e => (d, errLine e)
-    | _, _, _ => (d, "bad-commute")
+    | _, _, _ => (d, "bad-ref")
+  -- (commutesem NEW CUR rT): both sides of the commutation law, evaluated by the reference semantics
+  | [atom "commutesem", nx, cx, atom tn] =>
+    match d.rel? tn, decOpReq d.env nx, decOpReq d.env cx with
+    | some t, some nreq, some creq =>
+      match nreq.toUOp, creq.toUOp with
+      | .ok nw, .ok cur =>
+        let tcols := t.columns
+        let ccols := cur.appliedColumns tcols
+        let c := nw.commute cur tcols ccols
+        match c.first with
+        | none => (d, "ok none")
+        | some f =>
+          let mk (op : UOp) (x : Rel) : Rel :=
+            match op with
+            | .identity => x
+            | _ => .unary op x (op.appliedColumns x.columns)
+          let cur_rel := mk cur t
+          let a_rel := mk nw cur_rel
+          let first_rel := mk f t
+          let second_rel := mk c.second first_rel
+          let b_rel := if c.done then second_rel else mk nw second_rel
+          let wf := f.wfOn tcols && c.second.wfOn first_rel.columns && (c.done || nw.wfOn second_rel.columns)
+          let univ := d.env.tags
+          let run (x : Rel) : String :=
+            match (exec d.sigma x.engine x).run { d.st with log := [] } with
+            | .error e => errLine e
+            | .ok (it, _) =>
+              match iterate d.sigma it [] with
+              | .error e => errLine e
+              | .ok (rows, _) => showRows univ rows
+          let kd := keyDetermined d.sigma a_rel && keyDetermined d.sigma b_rel
+          (d, s!"ok a={run a_rel} b={if wf then run b_rel else "[?]"} wf={showBool wf} kd={showBool kd}")
+      | .error e, _ => (d, errLine e)
+      | _, .error e => (d, errLine e)
+    | _, _, _ => (d, "bad-ref")
+  -- (seqsem rT FIRST SECOND): the two operations applied in sequence (reference semantics)
+  | [atom "seqsem", atom tn, fx, sx] =>
+    match d.rel? tn, decOpReq d.env fx, decOpReq d.env sx with
+    | some t, some freq, some sreq =>
+      match freq.toUOp, sreq.toUOp with
+      | .ok f, .ok s2 =>
+        let fcols := f.appliedColumns t.columns
+        let scols := s2.appliedColumns fcols
+        (d, s!"ok rows={showRows d.env.tags (s2.sem scols (f.sem fcols (sem d.sigma t)))}")
+      | .error e, _ => (d, errLine e)
+      | _, .error e => (d, errLine e)
+    | _, _, _ => (d, "bad-ref")
   -- (simplify NEW UP): raw `new.simplify(upstream)`
   | [atom "simplify", nx, ux] =>
     match decOpReq d.env nx, decOpReq d.env ux with
@@ -266,7 +314,12 @@ def step (d : Drv) (cmd : List Sexp) : Drv × String :=
       let norm := p.normalise.show
       let ev := match p.eval row with | none => "err" | some b => showBool b
       let evr := match p.eval (row.restrict p.columnsRequired) with | none => "err" | some b => showBool b
-      (d, s!"ok triv={triv} flat={flat} norm={norm} cols={showCols p.columnsRequired} iter={ev} restricted={evr} spec={showBool (p.val row)} sup_iter={showBool (p.isSupportedBy .iter)} sup_sql={showBool (p.isSupportedBy .sql)}")
+      let sb (o : Option Bool) : String := match o with | none => "err" | some b => showBool b
+      let flatval := match p.flattenAnd with
+        | none => "-"
+        | some ps => sb (Pred.evalAll row ps)
+      let normval := sb (p.normalise.eval row)
+      (d, s!"ok triv={triv} flat={flat} norm={norm} flatval={flatval} normval={normval} cols={showCols p.columnsRequired} iter={ev} restricted={evr} spec={showBool (p.val row)} sup_iter={showBool (p.isSupportedBy .iter)} sup_sql={showBool (p.isSupportedBy .sql)}")
   -- (expr E (a 1) ...)
   | atom "expr" :: ex :: binds =>
     match decExpr d.env ex with
@@ -283,7 +336,7 @@ def step (d : Drv) (cmd : List Sexp) : Drv × String :=
   -- (diag rN none|truthful)
   | [atom "diag", atom n, atom mode] =>
     match d.rel? n with
-    | none => (d, "bad-diag")
+    | none => (d, "bad-ref")
     | some r =>
       let ex : Option (Rel → Bool) := if mode == "truthful" then some (fun x => !(sem d.sigma x).isEmpty) else none
       let res := Diagnostics.run ex r
@@ -291,7 +344,7 @@ def step (d : Drv) (cmd : List Sexp) : Drv × String :=
   -- (attach rN): attach a fresh payload object to the relation itself
   | [atom "attach", atom n] =>
     match d.rel? n with
-    | none => (d, "bad-attach")
+    | none => (d, "bad-ref")
     | some r =>
       match r with
       | .mat oid .. | .transfer oid .. | .select oid .. =>
@@ -301,7 +354,7 @@ def step (d : Drv) (cmd : List Sexp) : Drv × String :=
   -- (process rN rM): Processor.process
   | [atom "process", atom n, atom tn] =>
     match d.rel? tn with
-    | none => (d, "bad-process")
+    | none => (d, "bad-ref")
     | some t =>
       match processTop d.sigma d.st d.sqlSt t with
       | .error e => (d, errLine e)
@@ -313,7 +366,7 @@ def step (d : Drv) (cmd : List Sexp) : Drv × String :=
   -- (sqlexec rN): conform, compile, evaluate with the SQL semantics
   | [atom "sqlexec", atom n] =>
     match d.rel? n with
-    | none => (d, "bad-sqlexec")
+    | none => (d, "bad-ref")
     | some r =>
       match sqlRun d.sigma d.sqlSt d.store r with
       | .error e => (d, errLine e)
